@@ -134,7 +134,7 @@ class LinearSegment:
         self._physical_lower_limit = None
         self._physical_upper_limit = None
 
-        if self.factor >= 0:
+        if self.factor * self.denominator >= 0:
             self._physical_lower_limit = convert_internal_to_physical_limit(
                 self.internal_lower_limit)
             self._physical_upper_limit = convert_internal_to_physical_limit(
